@@ -4,7 +4,8 @@ Generator : configuration grid x generated data: ambient in {none, symbolic_mode
             {an, the (steered to 0 / 1 / >=2 solutions), infer} x condition (plain comparisons, @predicate function,
             Predicate subclass, HasType, predicates under not_) x head (plain variable; instance construction
             T(f=e..) in rule mode).  The query is always BUILT in the block its construction needs; a fresh build is
-            EVALUATED under each ambient mode.
+            EVALUATED under each ambient mode; for an/infer the result iterator is also started in one ambient mode and
+            continued in another (none>query, none>rule, query>none, rule>query).
 Oracle    : the outcome (value list / single value / exception class) under the query and rule ambient modes equals the
             outcome under no ambient mode and the Python reference; inferred results are real instances of the head
             class (never expressions); the ambient mode is unchanged after the call.
@@ -105,26 +106,56 @@ def _run(case, eff, objs, ambient):
     else:
         built = build_query(eff, objs, quant=quant)
         q = built.q
-    want_mode = {"none": None, "query": EQLMode.Query, "rule": EQLMode.Rule}[ambient]
-    with _ambient(ambient):
-        try:
-            if quant == "the":
-                r = q.evaluate()
-                out = ("value", [rows_of(built, [r])[0]])
-            elif quant == "an":
-                out = ("rows", rows_of(built, list(q.evaluate())))
-            else:
-                res = list(q.evaluate())
-                out = ("instances", res)
-        except MultipleSolutionFound:
-            out = ("multiple", None)
-        except NoSolutionFound:
-            out = ("none", None)
-        except Exception as e:
-            out = ("error", f"{type(e).__name__}: {e}")
-        mode_after = (in_symbolic_mode(EQLMode.Rule), in_symbolic_mode(EQLMode.Query), in_symbolic_mode())
-    expect_after = (want_mode == EQLMode.Rule, want_mode == EQLMode.Query, want_mode is not None)
-    return out, (mode_after == expect_after), mode_after
+    first_amb, _, rest_amb = ambient.partition(">")
+    rest_amb = rest_amb or first_amb
+    modes = {"none": None, "query": EQLMode.Query, "rule": EQLMode.Rule}
+    mode_ok, mode_after = True, None
+
+    def flags():
+        return (in_symbolic_mode(EQLMode.Rule), in_symbolic_mode(EQLMode.Query), in_symbolic_mode())
+
+    def expect(name):
+        m = modes[name]
+        return (m == EQLMode.Rule, m == EQLMode.Query, m is not None)
+
+    try:
+        if quant == "the":
+            with _ambient(first_amb):
+                try:
+                    r = q.evaluate()
+                finally:
+                    mode_after = flags()
+                    mode_ok = mode_after == expect(first_amb)
+            out = ("value", [rows_of(built, [r])[0]])
+        else:
+            # the result iterator is started in the first ambient mode and continued in the second one
+            items = []
+            with _ambient(first_amb):
+                it = q.evaluate()
+                try:
+                    first = next(it, _END)
+                finally:
+                    mode_after = flags()
+                    mode_ok = mode_after == expect(first_amb)
+            if first is not _END:
+                items.append(first)
+                with _ambient(rest_amb):
+                    try:
+                        items.extend(it)
+                    finally:
+                        mode_after = flags()
+                        mode_ok = mode_ok and mode_after == expect(rest_amb)
+            out = ("rows", rows_of(built, items)) if quant == "an" else ("instances", items)
+    except MultipleSolutionFound:
+        out = ("multiple", None)
+    except NoSolutionFound:
+        out = ("none", None)
+    except Exception as e:
+        out = ("error", f"{type(e).__name__}: {e}")
+    return out, mode_ok, mode_after
+
+
+_END = object()
 
 
 def _canon(out, head):
@@ -167,14 +198,17 @@ def check(case) -> Outcome:
             items.append((case["head"]["cls"], repr(ident(tuple(A.eval_term(t, env) for _, t in case["head"]["args"])))))
         ref = ("instances", sorted(items))
     outcomes = {}
-    for ambient in ("none", "query", "rule"):
+    ambients = ["none", "query", "rule"]
+    if case["quant"] != "the":
+        ambients += ["none>query", "none>rule", "query>none", "rule>query"]
+    for ambient in ambients:
         out, mode_ok, mode_after = _run(case, eff, objs, ambient)
         if not mode_ok:
             return fail("ambient_mode_changed", f"after evaluating {case['quant']} inside ambient '{ambient}' the mode "
                                                 f"flags (rule, query, any) are {mode_after}", nontrivial=nontrivial,
                         classes=classes, features=feats + ["ambient_" + ambient])
         outcomes[ambient] = _canon(out, case.get("head"))
-    for ambient in ("query", "rule"):
+    for ambient in ambients[1:]:
         if outcomes[ambient] != outcomes["none"]:
             return fail("ambient_changes_outcome", f"{case['quant']} evaluated inside '{ambient}' block gives "
                                                    f"{outcomes[ambient]}, outside any block {outcomes['none']} "
